@@ -765,7 +765,7 @@ class ClassBuilder:
     for n, dr, t in c["ports"]:
       if dr == "out":
         self.avail.append((mkref(n, inst=iname), t))
-        if "[" in n: groups.setdefault(n.split("[", 1)[0], []).append((n, t))
+        if "[" in n and "." not in n: groups.setdefault(n.split("[", 1)[0], []).append((n, t))
     for base, nts in groups.items():
       tuples = [tuple(int(x) for x in n.split("[", 1)[1].rstrip("]").split("][")) for n, _ in nts]
       dims = [max(t_[k] for t_ in tuples) + 1 for k in range(len(tuples[0]))]
@@ -800,13 +800,17 @@ class ClassBuilder:
     if o["ifcs"] and self.ifc_pool and d(st.integers(0, 2)) == 0:
       for _ in range(d(st.integers(1, 2))):
         iname = d(st.sampled_from(sorted(self.ifc_pool)))
-        attr = self.fresh("ifc")
-        self.ifc_insts.append([attr, iname])
-        for mn, md, mt in self.ifc_pool[iname]:
-          n = f"{attr}.{mn}"
-          self.ports.append([n, md, mt])
-          if md == "in": self.avail.append((mkref(n), mt))
-          else: pending_ifc_outs.append((n, mt))
+        base = self.fresh("ifc")
+        # a single interface, or a 1-D / 2-D list of interfaces: s.ifc3 = [ [ Ifc() for _ in range(2) ] for _ in range(2) ]
+        dims = d(st.sampled_from([None, None, None, [2], [3], [2, 2], [1, 2], [2, 3]])) if o["lists"] else None
+        for idx in (_indices(dims) if dims else [()]):
+          attr = base + "".join(f"[{i}]" for i in idx)
+          self.ifc_insts.append([attr, iname])
+          for mn, md, mt in self.ifc_pool[iname]:
+            n = f"{attr}.{mn}"
+            self.ports.append([n, md, mt])
+            if md == "in": self.avail.append((mkref(n), mt))
+            else: pending_ifc_outs.append((n, mt))
     if o["reset"] and d(st.integers(0, 3)) == 0:
       self.avail.append((mkref("reset"), ["b", 1]))
     # registers (available from the start)
@@ -1005,6 +1009,7 @@ def features(design):
   for c in design["classes"].values():
     if any("[" in i for i, _ in c["children"]): out.add("has_list_of_components")
     if c.get("ifc_insts"): out.add("has_interface")
+    if any("[" in a for a, _ in c.get("ifc_insts", [])): out.add("has_list_of_interfaces")
     if any(b.get("lambda") for b in c["blocks"]): out.add("has_lambda_connection")
     if c.get("funcs"): out.add("has_helper_function")
     if any(b["kind"] == "ff" and '"inst": "' in __import__("json").dumps(b["stmts"]).replace('"inst": ""', "") for b in c["blocks"]): out.add("has_child_input_register")
